@@ -629,6 +629,8 @@ func (ex *Exec) call(fn Value, args []Value, site ssa.Instruction, caller *frame
 		return ex.callSSA(f.Fn, args, f.Env, caller)
 	case *ssa.Builtin:
 		return ex.callBuiltin(f, args, site)
+	case NativeFunc:
+		return f(ex, args)
 	case nil:
 		ex.require(ex.st.False, "nil", "call of nil function")
 	}
